@@ -20,7 +20,11 @@ history that reaches it; ``build(history)`` replays it on fresh real objects.
   ``TestFactory`` + test cluster (corpus module loaded through the import hook)
   with every RNG draw owned by the explorer (``mc.rng.ChoiceRNG``); in every
   state all executions of ``mutate()`` with <= d non-default answers are run and
-  every distinct outcome becomes a transition.
+  every distinct outcome becomes a transition.  (The enumeration is done once
+  per "what mutate() reads" key - test signatures, flags, last results - on
+  probe chromosomes; one representative per distinct outcome is then executed
+  on the really rebuilt state, where it must reproduce the outcome, else the
+  run is a harness error.)
 * Oracle: after every operation that reaches a new canonical state, every
   query (``get_fitness``, ``get_fitness_for``, ``get_is_covered``,
   ``get_coverage``, ``get_coverage_for``; for suites also the members' own
@@ -30,9 +34,12 @@ history that reaches it; ``build(history)`` replays it on fresh real objects.
   function instance on a *fresh* chromosome built from the current code.  Every
   query event of the alphabet is compared in the same way on every transition.
   Exceptions out of any operation are violations ("querying never fails for a
-  registered function").  States in which a violation was seen are not
-  expanded, so the operation named in a fingerprint is the one that introduced
-  the staleness.
+  registered function").  In addition every cache entry of an un-flagged
+  chromosome that differs from the recomputed value (white-box inspection) is
+  turned into one *directed* black-box query for exactly that entry, so a
+  latent stale entry is reported at the operation that created it.  States in
+  which a violation was seen are not expanded, so the operation named in a
+  fingerprint is the one that introduced the staleness.
 """
 
 from __future__ import annotations
@@ -237,6 +244,26 @@ def code_of(test_case) -> str:
         from mc.ctx import HarnessError
         raise HarnessError("memoised code differs from to_module().code")
     return code
+
+
+_ACC_REPR: dict = {}
+
+
+def tc_sig(test_case):
+    """Everything of a test case that later operations can read: code, fresh-name counter, per-statement
+    bound type and accessible (the latter two decide which mutation applies and has_call_on_sut)."""
+    per = []
+    for s in test_case.statements():
+        acc = s.accessible
+        if acc is None:
+            r = None
+        else:
+            ent = _ACC_REPR.get(id(acc))
+            if ent is None or ent[0] is not acc:
+                ent = _ACC_REPR[id(acc)] = (acc, repr(acc))
+            r = ent[1]
+        per.append((getattr(s.bound_type, "__name__", str(s.bound_type)), r))
+    return (code_of(test_case), test_case._var_counter, tuple(per))  # noqa: SLF001
 
 
 # --------------------------------------------------------------------------- universe
@@ -531,7 +558,7 @@ class Universe:
 
     def _canon_tc(self, c):
         lr = c.get_last_execution_result()
-        return (code_of(c.test_case), bool(c.changed),
+        return (tc_sig(c.test_case), bool(c.changed),
                 None if lr is None else getattr(lr, "stub_code", "?"), self._cache(c))
 
     def canon(self):
@@ -561,7 +588,7 @@ class Universe:
         """Everything mutate() reads / writes: code, flag and last-result provenance of every test."""
         def one(c):
             lr = c.get_last_execution_result()
-            return (code_of(c.test_case), bool(c.changed), None if lr is None else getattr(lr, "stub_code", "?"))
+            return (tc_sig(c.test_case), bool(c.changed), None if lr is None else getattr(lr, "stub_code", "?"))
 
         if self.leg == "tc":
             return one(o)
@@ -974,14 +1001,16 @@ def plan(quick):
                 jobs.append(("ts", "numeric", root, 2))
     else:
         for root in roots("tc", quick):
-            jobs.append(("tc", "shapes", root, 4))
+            deep = root["reg"] in ("warm", "part", "none") and root["init"] != "empty"
+            jobs.append(("tc", "shapes", root, 4 if deep else 3))
             if root["reg"] == "warm":
-                jobs.append(("tc", "numeric", root, 4))
+                jobs.append(("tc", "numeric", root, 3))
                 jobs.append(("tc", "containers", root, 3))
         for root in roots("ts", quick):
-            jobs.append(("ts", "shapes", root, 3))
+            deep = root["reg"] in ("warm", "part") and root["init"]
+            jobs.append(("ts", "shapes", root, 3 if deep else 2))
             if root["reg"] == "warm" and root["init"] in ([0], [0, 2]):
-                jobs.append(("ts", "numeric", root, 3))
+                jobs.append(("ts", "numeric", root, 2))
     return jobs
 
 
@@ -997,10 +1026,9 @@ def run(ctx):
     def weight(t):
         leg, _, root, d = t
         w = {"warm": 3, "part": 3, "all": 3, "one": 2, "none": 2}[root["reg"]]
-        return w * (1.0 if leg == "tc" else 0.6)
+        return w * (1.0 if leg == "tc" else 0.6) * (15 if d > (3 if leg == "tc" else 2) else 1)
 
-    # deal the tasks of each module into buckets of about equal estimated weight: one World per bucket;
-    # the seed only rotates the order in which the buckets are started
+    # deal the tasks of each module into buckets of about equal estimated weight: one World per bucket
     jobs = []
     total = sum(weight(t) for t in tasks)
     for module in modules:
@@ -1011,9 +1039,10 @@ def run(ctx):
             bkt = min(buckets, key=lambda x: x[0])
             bkt[0] += weight(t)
             bkt[1].append((t[0], t[2], t[3]))
-        jobs.extend((module, bkt[1], dev, cap) for bkt in buckets)
-    rot = ctx.seed % len(jobs)
-    par.run_shards("props.c12_cache_fresh:shard", jobs[rot:] + jobs[:rot], ctx.workers, ctx)
+        jobs.extend((bkt[0], (module, bkt[1], dev, cap)) for bkt in buckets)
+    # heaviest buckets first; the seed only permutes the order among equally heavy ones
+    order = sorted(range(len(jobs)), key=lambda i: (-jobs[i][0], (i * 7919 + ctx.seed * 104729) % 1000003))
+    par.run_shards("props.c12_cache_fresh:shard", [jobs[i][1] for i in order], ctx.workers, ctx)
     cpu = sorted(ctx.col.notes.get("shard_cpu_seconds", []), key=lambda t: -float(t.rsplit(": ", 1)[1]))
     ctx.note("shard_cpu_seconds", cpu[:8])
     print("C12 slowest shards (cpu s):", cpu[:6], flush=True)
